@@ -129,43 +129,55 @@ def compress (f : State → State) (kv : Kv) (msg : List UInt8) (bits : Nat) (la
   else
     ({ kv with kr := kr, x := x }, bits, done)
 
+/-- `Kra`, first stage: `if (flags & FlagInit) != 0 { … }` -/
+def kraInit (kv : Kv) (flags : Nat) : Kv :=
+  if (flags &&& flagInit) ≠ 0 then { kv with kr := kv.k, x := zero, qbits := 0 } else kv
+
+/-- `Kra`, second stage: leave the expanding phase, or top up the queue of residual bytes and
+compress it when full / when this is the last part.  Result: object, unread input, its bit
+length, and whether `Kra` returns here. -/
+def kraQueue (f : State → State) (kv : Kv) (inp : List UInt8) (bits : Nat) (final : Bool) :
+    Kv × List UInt8 × Nat × Bool :=
+  if kv.phase ≠ .compressing then
+    ({ kv with phase := .compressing, qbits := 0 }, inp, bits, false)
+  else if kv.qbits ≠ 0 then
+    -- data is already queued
+    let bitLen := min bits (widthBits - kv.qbits)
+    let byteLen := (bitLen + 7) / 8
+    let q := copyInto kv.q (kv.qbits / 8) (inp.take byteLen)
+    let inp := inp.drop byteLen
+    let bits := bits - bitLen
+    let kv := { kv with q := q, qbits := kv.qbits + bitLen }
+    if kv.qbits = widthBits then
+      -- queue is full
+      let c := compress f kv kv.q kv.qbits false
+      ({ c.1 with qbits := 0 }, inp, bits, false)
+    else if final then
+      let c := compress f kv kv.q kv.qbits true
+      ({ c.1 with qbits := c.2.1 }, inp, bits, true)
+    else (kv, inp, bits, false)
+  else (kv, inp, bits, false)
+
+/-- `Kra`, last stage: compress whole blocks (and the padded last one when final), queue the
+residual bytes.  (The comparison of a bit count with `widthBytes` is the Go code's.) -/
+def kraRest (f : State → State) (kv : Kv) (inp : List UInt8) (bits : Nat) (final : Bool) : Kv :=
+  let r : Kv × List UInt8 × Nat :=
+    if decide (bits ≥ widthBytes) || final then
+      let c := compress f kv inp bits final
+      (c.1, inp.drop c.2.2, c.2.1)
+    else (kv, inp, bits)
+  if r.2.2 ≠ 0 then
+    { r.1 with q := copyInto r.1.q 0 (r.2.1.take (r.2.2 / 8)), qbits := r.2.2 }
+  else r.1
+
 /-- `Kra(in, inputBitLen, flags)` -/
 def kra (f : State → State) (kv : Kv) (inp : List UInt8) (bits : Nat) (flags : Nat) : Kv × Nat :=
   let final : Bool := (flags &&& flagLastPart) != 0
   if !final && bits % 8 != 0 then (kv, 1)
   else
-    let kv := if (flags &&& flagInit) ≠ 0 then { kv with kr := kv.k, x := zero, qbits := 0 } else kv
-    -- (kv, in, bits, finished)
-    let r : Kv × List UInt8 × Nat × Bool :=
-      if kv.phase ≠ .compressing then
-        ({ kv with phase := .compressing, qbits := 0 }, inp, bits, false)
-      else if kv.qbits ≠ 0 then
-        -- data is already queued
-        let bitLen := min bits (widthBits - kv.qbits)
-        let byteLen := (bitLen + 7) / 8
-        let q := copyInto kv.q (kv.qbits / 8) (inp.take byteLen)
-        let inp := inp.drop byteLen
-        let bits := bits - bitLen
-        let kv := { kv with q := q, qbits := kv.qbits + bitLen }
-        if kv.qbits = widthBits then
-          let (kv', _, _) := compress f kv kv.q kv.qbits false
-          ({ kv' with qbits := 0 }, inp, bits, false)
-        else if final then
-          let (kv', qb, _) := compress f kv kv.q kv.qbits true
-          ({ kv' with qbits := qb }, inp, bits, true)
-        else (kv, inp, bits, false)
-      else (kv, inp, bits, false)
-    let (kv, inp, bits, finished) := r
-    if finished then (kv, 0)
-    else
-      let (kv, inp, bits) :=
-        if decide (bits ≥ widthBytes) || final then
-          let (kv', bits', n) := compress f kv inp bits final
-          (kv', inp.drop n, bits')
-        else (kv, inp, bits)
-      let kv :=
-        if bits ≠ 0 then { kv with q := copyInto kv.q 0 (inp.take (bits / 8)), qbits := bits } else kv
-      (kv, 0)
+    let r := kraQueue f (kraInit kv flags) inp bits final
+    if r.2.2.2 then (r.1, 0)
+    else (kraRest f r.1 r.2.1 r.2.2.1 final, 0)
 
 /-- `b[len-1] &= (1 << (bits & 7)) - 1` when `bits & 7 ≠ 0` -/
 def maskLast (out : List UInt8) (bits : Nat) : List UInt8 :=
@@ -188,52 +200,64 @@ def expand (f : State → State) (y kr : State) (remaining : Nat) (acc : List UI
 termination_by remaining
 decreasing_by simp only [widthBytes] at *; omega
 
+/-- `Vatte`, first stage: on the first call after compressing, derive `y` from `x`; `false` is
+the error return -/
+def vatteStart (f : State → State) (kv : Kv) (flags : Nat) : Kv × Bool :=
+  if kv.phase = .compressing then
+    if kv.qbits ≠ 0 then (kv, false)
+    else
+      let y := if (flags &&& flagShort) ≠ 0 then kv.x else f kv.x
+      ({ kv with y := y, phase := .expanding }, true)
+  else if kv.phase ≠ .expanding then (kv, false)
+  else (kv, true)
+
+/-- `Vatte`, second stage: serve from the queue of already expanded bytes.  Result: object, bytes
+written so far, bits still wanted, and whether `Vatte` returns here. -/
+def vatteQueue (kv : Kv) (outBits : Nat) (final : Bool) : Kv × List UInt8 × Nat × Bool :=
+  if kv.qbits ≠ 0 then
+    let toBits := min outBits (widthBits - kv.qbits)
+    let toBytes := (toBits + 7) / 8
+    let part := (kv.q.drop (kv.qbits / 8)).take toBytes
+    let qb := kv.qbits + toBits
+    let kv := { kv with qbits := if qb = widthBits then 0 else qb }
+    let outBits := outBits - toBits
+    if final && outBits == 0 then
+      ({ kv with phase := .expanded }, maskLast part toBits, outBits, true)
+    else (kv, part, outBits, false)
+  else (kv, [], outBits, false)
+
+/-- `Vatte`, last stage: expand whole blocks, queue what is left of the last one (unless final),
+clean up the last incomplete byte -/
+def vatteBlocks (f : State → State) (kv : Kv) (out : List UInt8) (outBits : Nat) (final : Bool) :
+    Kv × List UInt8 :=
+  let remaining := (outBits + 7) / 8
+  let r : Kv × List UInt8 :=
+    if remaining ≠ 0 then
+      let e := expand f kv.y kv.kr remaining out
+      let kv := { kv with y := e.1 }
+      let byteLen := e.2.2.1
+      if !final && byteLen != widthBytes then
+        -- put the rest of the expanded data in the queue
+        let rest := extractAt (addState e.2.1 kv.kr) byteLen (widthBytes - byteLen)
+        ({ kv with q := copyInto kv.q byteLen rest, qbits := byteLen * 8 }, e.2.2.2)
+      else (kv, e.2.2.2)
+    else (kv, out)
+  if final then ({ r.1 with phase := .expanded }, maskLast r.2 outBits)
+  else r
+
 /-- `Vatte(out, outBits, flags)`: the bytes written to `out` (`⌈outBits/8⌉` of them on success) -/
 def vatte (f : State → State) (kv : Kv) (outBits : Nat) (flags : Nat) : Kv × List UInt8 × Nat :=
   let final : Bool := (flags &&& flagLastPart) != 0
   if !final && outBits % 8 != 0 then (kv, [], 1)
   else
-    -- (kv, ok)
-    let r : Kv × Bool :=
-      if kv.phase = .compressing then
-        if kv.qbits ≠ 0 then (kv, false)
-        else
-          let y := if (flags &&& flagShort) ≠ 0 then kv.x else f kv.x
-          ({ kv with y := y, phase := .expanding }, true)
-      else if kv.phase ≠ .expanding then (kv, false)
-      else (kv, true)
-    let (kv, ok) := r
-    if !ok then (kv, [], 1)
+    let s := vatteStart f kv flags
+    if !s.2 then (s.1, [], 1)
     else
-      -- queue part: (kv, out so far, outBits left, finished)
-      let r : Kv × List UInt8 × Nat × Bool :=
-        if kv.qbits ≠ 0 then
-          let toBits := min outBits (widthBits - kv.qbits)
-          let toBytes := (toBits + 7) / 8
-          let part := (kv.q.drop (kv.qbits / 8)).take toBytes
-          let qb := kv.qbits + toBits
-          let kv := { kv with qbits := if qb = widthBits then 0 else qb }
-          let outBits := outBits - toBits
-          if final && outBits == 0 then
-            ({ kv with phase := .expanded }, maskLast part toBits, outBits, true)
-          else (kv, part, outBits, false)
-        else (kv, [], outBits, false)
-      let (kv, out, outBits, finished) := r
-      if finished then (kv, out, 0)
+      let r := vatteQueue s.1 outBits final
+      if r.2.2.2 then (r.1, r.2.1, 0)
       else
-        let remaining := (outBits + 7) / 8
-        let (kv, out) :=
-          if remaining ≠ 0 then
-            let (y, state, byteLen, out) := expand f kv.y kv.kr remaining out
-            let kv := { kv with y := y }
-            if !final && byteLen != widthBytes then
-              -- put the rest of the expanded data in the queue
-              let rest := extractAt (addState state kv.kr) byteLen (widthBytes - byteLen)
-              ({ kv with q := copyInto kv.q byteLen rest, qbits := byteLen * 8 }, out)
-            else (kv, out)
-          else (kv, out)
-        if final then ({ kv with phase := .expanded }, maskLast out outBits, 0)
-        else (kv, out, 0)
+        let b := vatteBlocks f r.1 r.2.1 r.2.2.1 final
+        (b.1, b.2, 0)
 
 /-- `Kravatte(in, out, flags)` with `len(out) = outLen` -/
 def kravatte (f : State → State) (kv : Kv) (inp : List UInt8) (outLen : Nat) (flags : Nat) :
